@@ -283,4 +283,23 @@ example (c : Rat) (x : List Rat) :
          ((fun y : List Rat => ([0, 1, 2], [y.headD 0])) x).2.map fun a => c * a) := by
   cases x <;> simp
 
+-- a homogeneous envelope oracle (every sample divided by the first one): the hypotheses of
+-- `amplitudeNormalise_scale_free` hold for x = [2, -4, 6], c = 3, and the theorem applies
+example :
+    let E : Nat → List Rat → Option (List Rat) := fun _ y => some (y.map fun _ => y.headD 0)
+    amplitudeNormalise E (1 / 10) 3 ([2, -4, 6].map fun v => 3 * v)
+      = amplitudeNormalise E (1 / 10) 3 [2, -4, 6] := by
+  intro E
+  exact amplitudeNormalise_scale_free E (1 / 10) 3 3 [2, -4, 6] (by norm_num) (by norm_num)
+    [2, 2, 2] (by simp [E]) (by simp [E])
+
+-- the sqrt-table hypothesis of `quad_unit_modulus` on a 3-4-5 sampled half cycle
+example : ∀ i, i < [(0 : Rat), 3 / 5, 1, 3 / 5].length →
+    getR [(1 : Rat), 4 / 5, 0, 4 / 5] i * getR [(1 : Rat), 4 / 5, 0, 4 / 5] i
+      = 1 - getR [(0 : Rat), 3 / 5, 1, 3 / 5] i * getR [(0 : Rat), 3 / 5, 1, 3 / 5] i := by
+  intro i hi
+  simp only [List.length_cons, List.length_nil] at hi
+  have : i = 0 ∨ i = 1 ∨ i = 2 ∨ i = 3 := by omega
+  rcases this with rfl | rfl | rfl | rfl <;> norm_num [getR]
+
 end C09
